@@ -239,8 +239,38 @@ def shellquote(pid, tier, replay):
                 if len(found) < 25:
                     p = save_replay(pid, "%s-run%d-l%d" % (scid, run, v["l"]), {"property": pid, "scenario": by_id.get(scid), "choices": choices, "violation": v})
                     found.append((p, v["what"]))
+        # the same clauses on the real binary and the real file system (RealDiskInterface::WriteFile, unlink): a failing
+        # command leaves its response file behind, the content then changes (to a shorter one) and the command runs again
+        def rsp_history(s):
+            h0 = s["hist"][0]
+            if not (isinstance(h0, dict) and h0.get("fail")):
+                return None
+            for st in s["stmts"]:
+                if not st["phony"]:
+                    st["rsp"] = True
+            s["hist"] = [h0] + [{"op": "rspver", "s": f["s"]} for f in h0["fail"]] + s["hist"][1:]
+            return s
+        scen2 = engine.load_scenarios([dict(fam="fail", K=2 if tier == "quick" else 10, CH=2 if tier == "quick" else 6, mut=rsp_history)], sd)
+        import random
+        random.Random(sd).shuffle(scen2)
+        scen2 = scen2[:60 if tier == "quick" else 800]
+        for s2 in scen2:
+            s2["id"] = "h2:" + s2["id"]
+            by_id[s2["id"]] = s2
+        files2, h2execs = engine.run_h2(scen2, wd, 2)
+        for (sp, tp), (d, r) in zip(files2, engine.validate(files2, wd)):
+            estates += r["states"]
+            for v in d["viol"]:
+                if v["p"] != pid:
+                    continue
+                rspv += 1
+                nviol += 1
+                scid, run, choices, ev = engine.locate(tp, v["l"])
+                if len(found) < 25:
+                    p = save_replay(pid, "%s-run%d-l%d" % (scid, run, v["l"]), {"property": pid, "scenario": by_id.get(scid), "choices": choices, "violation": v, "h2": True})
+                    found.append((p, v["what"] + " (real binary)"))
         write_evidence(pid, tier, "model_checking", {
-            "states": mc["distinct"] + estates, "transitions": mc["states"] + estates,
+            "states": mc["distinct"] + estates, "transitions": mc["states"] + estates, "real_binary_executions_with_rspfiles": h2execs,
             "traces_validated_against_impl": nvec + execs,
             "samples": [{"names": [fnlib.bytes_to_text(n) for n in items[k][2]["names"]], "text": fnlib.bytes_to_text(items[k][0])} for k in (5, 300, 70000) if k < len(items)],
             "evaluations": nvec + len(items) + execs, "distinct_nontrivial": nvec,
@@ -449,7 +479,7 @@ def limits(pid, tier, replay):
     # invariants Limits (-j, pool depths, at most once, never 'stuck') and NoIdle, liveness Termination under FairSpec
     design = dict(K=2 if q else 8, consts={"MaxInv": 1, "MaxEnv": 0, "MaxClock": 80, "Js": "{1, 2, 3}", "Ks": "{1, 2, 0}"},
                   invariants=["Limits", "NoIdle"], properties=["Termination"], timeout=300 if q else 3000, fam="mcpools", workers=8)
-    return engine.engine_check(pid, fams, tier, maxruns=24 if tier == "quick" else 400, design=design)
+    return engine.engine_check(pid, fams, tier, maxruns=24 if tier == "quick" else 400, design=design, impl=True)
 
 
 @reg("C07")
